@@ -154,13 +154,16 @@ fn ty(name: &str) -> Value {
         "OptI32" => RTy::Opt(Box::new(p("i32"))),
         "VecI32" => RTy::Vec(Box::new(p("i32"))),
         "OptVecString" => RTy::Opt(Box::new(RTy::Vec(Box::new(p("String"))))),
+        "VecUser" => RTy::Vec(Box::new(RTy::Named("User".into()))),
+        "OptVecUser" => RTy::Opt(Box::new(RTy::Vec(Box::new(RTy::Named("User".into()))))),
+        "VecBool" => RTy::Vec(Box::new(p("bool"))),
         _ => p("bool"),
     }
     .to_json()
 }
 
 pub fn run(out: &mut Out, tier: &str, rng: &mut Rng) {
-    let types = ["String", "i32", "f64", "u8", "VecString", "OptString", "OptI32", "VecI32", "OptVecString", "bool"];
+    let types = ["String", "i32", "f64", "u8", "VecString", "OptString", "OptI32", "VecI32", "OptVecString", "bool", "VecUser", "OptVecUser", "VecBool"];
     let safe_msgs = ["Must be valid", "too short!", "Zwischen 1 und 10", "say \"hi\"", "it's fine", "line\nbreak", "tab\there", "a, b and c", "100% [ok] {x}", "between {min} and {max}", "{message}: at least {min}", "{0} {} {{}} $1 %s {value}"];
     let adv_msgs = ["é", "naïve café", "日本語のメッセージ", "a)b", "(paren)", "invalid email address", "minimum is 3", "at most max", "see url", "range error", "back\\slash", "dir\\new", "cr\rlf", "emoji 🎉 done", "x\\\\y", "\"", "ß", "message here", "length!", "too short :(", "(at most three tags", "use the 3.5\" form", "a \" b \" c \" d", "((", "[{(", "1) first (2", "ring\u{7}!", "a\u{8}c", "x\u{1f}y\u{1}", "del\u{7f}ete", "it's 'quoted'", "nbsp\u{a0}here", "line\u{2028}sep"];
     let nums_u = ["0", "1", "3", "10", "255", "18446744073709551615", "18446744073709551616", "007"];
@@ -227,6 +230,18 @@ pub fn run(out: &mut Out, tier: &str, rng: &mut Rng) {
             out.case("validator", json!({"rty": ty(t), "attrs": [[{"k": "email"}, {"k": kind, "min": "2", "message": msg(m, 0), "order": ["message", "min", "max"]}]]}), json!({"gen": "msgs"}));
             // … and the flag validators *after* the one with the message
             out.case("validator", json!({"rty": ty(t), "attrs": [[{"k": kind, "max": "30", "message": msg(m, 0)}, {"k": if i % 2 == 0 { "url" } else { "email" }}]]}), json!({"gen": "msgs"}));
+        }
+    }
+    // every validator in a first attribute, every other one in a second (what the first declared must survive the second)
+    let singles = [json!({"k": "length", "min": "2", "max": "9"}), json!({"k": "range", "min": "1", "max": "10"}), json!({"k": "email"}), json!({"k": "url"}),
+        json!({"k": "other", "raw": "custom(function = \"is_even\")"}), json!({"k": "other", "raw": "required"}), json!({"k": "length", "max": "4", "message": msg("too long", 0)})];
+    for (i, a) in singles.iter().enumerate() {
+        for (j, b) in singles.iter().enumerate() {
+            if i != j {
+                for t in ["String", "i32", "OptI32", "VecString"] {
+                    out.case("validator", json!({"rty": ty(t), "attrs": [[a], [b]]}), json!({"gen": "attrpairs"}));
+                }
+            }
         }
     }
     out.case("validator", json!({"rty": ty("String"), "attrs": [[{"k": "email"}, {"k": "url"}, {"k": "length", "min": "5", "max": "50"}]]}), json!({"gen": "combo"}));
